@@ -344,7 +344,14 @@ class Ev:
                 if a.is_const():
                     ok = {"ult": a.k1 < c, "ule": a.k1 <= c, "ugt": a.k1 > c, "uge": a.k1 >= c}[pred]
                     return [self] if ok else []
-                if a.om == mask(W) and W == self.w:
+                if a.lin is not None and a.lin != 0 and W == self.w and a.om != mask(W):
+                    # a == old + d exactly; usable when the addition cannot wrap given what is known about old
+                    d = a.lin
+                    if d < 0 and f.ulo >= -d:
+                        lo2, hi2 = {"ult": (0, c - 1), "ule": (0, c), "ugt": (c + 1, mask(W)), "uge": (c, mask(W))}[pred]
+                        f.ulo = max(f.ulo, lo2 - d)
+                        f.uhi = min(f.uhi, hi2 - d) if hi2 - d <= mask(W) else f.uhi
+                elif a.om == mask(W) and W == self.w:
                     if pred == "ult":
                         f.uhi = min(f.uhi, c - 1)
                     elif pred == "ule":
